@@ -170,9 +170,15 @@ func runC02(r *core.Run) {
 	}
 	lens = append(lens, 4094, 4095, 4096, 4097, 65534, 65535, 65536, 65537, 131072, 1<<20)
 	if r.Thorough() {
+		for l := 301; l <= 9000; l++ {
+			lens = append(lens, l)
+		}
+		for l := 65500; l <= 65600; l++ {
+			lens = append(lens, l)
+		}
 		lens = append(lens, 1<<20+1, 4<<20, 16<<20)
 	}
-	r.Bound("read-lengths", fmt.Sprintf("every length 0..300, 4094..4097, 65534..65537, 131072, 1 MiB%s; each as the middle record of three", core.Pick(r, "", ", 1 MiB+1, 4 MiB, 16 MiB")))
+	r.Bound("read-lengths", fmt.Sprintf("every length 0..300, 4094..4097, 65534..65537, 131072, 1 MiB%s; each as the middle record of three", core.Pick(r, "", ", every length 301..9000 and 65500..65600, 1 MiB+1, 4 MiB, 16 MiB")))
 	core.Clause(r, "read-lengths", core.Opts{Rule: "a file of three records whose middle record has the listed read length (position-dependent content, name as long as the read for lengths <= 65537); non-trivial = length >= 2"},
 		func(emit func(c02Len) bool) {
 			for _, l := range lens {
